@@ -63,23 +63,27 @@ Print Assumptions C15_isolation_bounds.
 (* --- region clipping --- *)
 (* DecodeRegionRange on the memcomparable bounds of a physical region [s, e) ([] = unbounded):
    ROk s' e' describes exactly the region's intersection with the keyspace in logical keys,
-   ROutOfBound means the intersection is empty. Side condition: the start bound is not one of the
-   (at most three byte long) strings strictly between prefix and endKey that lack the prefix. *)
-Theorem C15_region_clip : forall c s e, ~ short_start c s ->
+   ROutOfBound means the intersection is empty; for every keyspace and every pair of bounds. *)
+Theorem C15_region_clip : forall c s e,
   clip_spec c s e (decode_region_range c (mem_enc s) (mem_enc e)).
 Proof. exact region_clip. Qed.
 Print Assumptions C15_region_clip.
 
-Theorem C15_region_clip_side_condition : forall c s, wf_bytes s -> short_start c s -> (length s < 4)%nat.
-Proof. exact short_start_is_short. Qed.
-Print Assumptions C15_region_clip_side_condition.
+Theorem C15_range_clip : forall c s e, clip_spec c s e (decode_range c s e).
+Proof. exact decode_range_clip. Qed.
+Print Assumptions C15_range_clip.
 
-(* full strength (no side condition) is refuted by the code as it is: keyspace 255 raw, region
-   [72 00 01, 72 00 01 00 05) lies above the whole keyspace but decodes to the whole keyspace *)
-Theorem C15_region_clip_unrestricted_refuted :
-  ~ (forall c s e, ks_ok c -> clip_spec c s e (decode_range c s e)).
-Proof. exact decode_range_clip_refuted. Qed.
-Print Assumptions C15_region_clip_unrestricted_refuted.
+(* regression witness: the formula before repair f1823af (no test for a start key above the prefix that
+   lacks the prefix) is refuted: keyspace 255 raw, region [72 00 01, 72 00 01 00 05) *)
+Theorem C15_region_clip_prefix_formula_refuted :
+  ~ (forall c s e, ks_ok c -> clip_spec c s e (decode_range_gen false c s e)).
+Proof. exact decode_range_prefix_refuted. Qed.
+Print Assumptions C15_region_clip_prefix_formula_refuted.
+
+(* the strings on which the two formulas differ are shorter than four bytes *)
+Theorem C15_region_clip_short_class : forall c s, wf_bytes s -> short_start c s -> (length s < 4)%nat.
+Proof. exact short_start_is_short. Qed.
+Print Assumptions C15_region_clip_short_class.
 
 Theorem C15_region_strict : forall c s e, decode_region_range c s e <> RDecodeErr ->
   exists ps pe, decode_region_range c s e = decode_range c ps pe /\
@@ -141,8 +145,9 @@ Example ex_range_rev : encode_range (mkks Raw 1) true [] [5] = ([114; 0; 0; 2], 
 Proof. vm_compute. reflexivity. Qed.
 Example ex_clip : decode_range (mkks Raw 1) [114; 0; 0; 0; 9] [114; 0; 0; 1; 7] = ROk [] [7]
   /\ decode_range (mkks Raw 1) [114; 0; 0; 2] [] = ROutOfBound
-  /\ ~ short_start (mkks Raw 1) [114; 0; 0; 0; 9].
-Proof. split; [|split]; try (vm_compute; reflexivity). intros (_ & H & _). vm_compute in H. discriminate. Qed.
+  /\ decode_range (mkks Raw 255) [114; 0; 1] [114; 0; 1; 0; 5] = ROutOfBound
+  /\ decode_range_gen false (mkks Raw 255) [114; 0; 1] [114; 0; 1; 0; 5] = ROk [] [].
+Proof. repeat split; vm_compute; reflexivity. Qed.
 Example ex_two_clients :
   let a := mkks Raw 1 in let b := mkks Raw 2 in
   run [(a, OPut [1] [10]); (b, OPut [1] [20]); (b, ODelRange [] []); (a, OScan false [] [] 5); (b, OScan true [] [] 5)] []
